@@ -330,6 +330,12 @@ class World:
         data = self.img_uuid(iid).bytes + struct.pack('<QQ', self.addr(rank), self.rnd.getrandbits(32))
         return self._mk(name, cls, q, t, {'rank': rank, 'id': iid}, data=data)
 
+    def unimg(self, t, rank, iid, kind='DYLD_uuid_unmap_a', q=0):
+        """a record with the payload of an image announcement that is NOT one (unmap, or the second half 'b' of a map /
+        shared-cache / unmap record): it says nothing about where an image is loaded"""
+        data = self.img_uuid(iid).bytes + struct.pack('<QQ', self.addr(rank), self.rnd.getrandbits(32))
+        return self._mk(kind, 'SYS0', q, t, {'x': 0}, data=data)
+
     def launch(self, q, t):
         return self._mk('DBG_DYLD_TIMING_LAUNCH_EXECUTABLE', 'LAUNCH', q, t, {'x': 0},
                         words=(self.rnd.getrandbits(64), self.rnd.getrandbits(48), self.rnd.getrandbits(64), self.rnd.getrandbits(64)))
